@@ -109,7 +109,9 @@ def rule_generic(rep, pdoc):
                 # Iterator adaptors are parametric in the item type; only the comparison family can inspect items, and only
                 # when the items are the samples themselves (no mapping closure in between - closures are bodies checked on their own)
                 meth = callee.rsplit("::", 1)[-1].split("<")[0]
-                if meth in ("eq", "ne", "partial_cmp", "cmp", "lt", "le", "gt", "ge", "is_sorted", "max", "min", "sum", "product") and "{closure@" not in callee:
+                # `.map(Vec::len)` / `.map(Vec::capacity)`: the mapping is a function pointer whose result type is an integer, so the items compared are integers
+                fnptr_int = re.search(r"Map<.*fn\([^)]*\) -> (usize|isize|u8|u16|u32|u64|i8|i16|i32|i64|bool)\b", callee) is not None
+                if meth in ("eq", "ne", "partial_cmp", "cmp", "lt", "le", "gt", "ge", "is_sorted", "max", "min", "sum", "product") and "{closure@" not in callee and not fnptr_int:
                     points.append((c, "iterator method `%s` compares / folds sample items and returns `%s`" % (callee[:90], ret)))
                 continue
             if tr:
